@@ -295,3 +295,78 @@ func runCrossIssuerAudit(h *Harness, j int) {
 	h.R.Sample = map[string]any{"scenario": "cross-issuer", "backend": backend, "result": sc["audit"]}
 	h.Cleanup(n)
 }
+
+// Concurrent-listing audit (C01): the explorer presents certificates one at a time. Here 3-6 handshakes for serials that
+// EVERY version of the location lists run at once, against each other and against a refresh cycle that replaces the
+// list (and, in half of the runs, against a second cycle), under seeded preemption, window delays and lock holds. A
+// listed certificate is rejected whoever else is busy with the same entry: any acceptance is a violation.
+func concurrentListedAuditRuns(tier string) int {
+	if tier == "thorough" {
+		return 120
+	}
+	return 16
+}
+
+func runConcurrentListedAudit(h *Harness, j int) {
+	tp := h.Tape
+	sc := h.R.Scenario
+	backend := []string{"memory", "disk"}[j%2]
+	strict := (j/2)%2 == 0
+	pre := Pick(tp, 50, 200, 400)
+	h.S.pPre = uint64(pre) * (1 << 32) / 1000
+	h.S.pDelayDen, h.S.delayFor = Pick(tp, 0, 5, 10), Pick(tp, 2*time.Second, 20*time.Second)
+	h.S.pHoldDen, h.S.holdFor = Pick(tp, 0, 4, 8), Pick(tp, 2*time.Second, 10*time.Second)
+	h.S.stallSteps = Pick(tp, 0, 30, 300)
+	sc["scenario"], sc["backend"], sc["strict"], sc["pre"] = "concurrent-listed", backend, strict, pre
+	h.R.NonTrivial = true
+	w := NewWorld(h, WorldOpts{Intermediate: tp.Chance(1, 2)})
+	loc := w.NewLocation(LocOpts{Name: "L1", URL: "http://crl.sim/a.crl", Issuer: w.A, NVers: 3, Extra: Pick(tp, 2, 40, 300), Width: 8})
+	cfg := NodeCfg{Mode: "crl_only", Storage: backend, UpdateInterval: "10m", SigMode: "verify", CDPStrict: strict}
+	n := h.NewNode("n1", cfg)
+	if err := h.Provision(n); err != nil {
+		h.Violation(ownPrefix+"setup", "provision-failed", "%v", err)
+		return
+	}
+	hs := h.Handshake(n, "load", w.ChainFor(loc.Cert(loc.Never[0]), w.A))
+	h.Quiesce()
+	if hs.Err != nil || loc.Pattern(n) != "v1" {
+		h.Violation(ownPrefix+"setup", "load-failed", "fault-free first load failed: %v", hs.Err)
+		return
+	}
+	for round := 0; round < 2; round++ {
+		loc.Cur = round + 1
+		// let the tick spawn its refresh, then start the handshakes
+		h.S.Run(func(v schedView) bool {
+			for _, t := range v.parked {
+				if t.kind == kStart && !t.client {
+					return true
+				}
+			}
+			return false
+		}, h.S.Now()+11*time.Minute)
+		var calls []*HS
+		k := 3 + tp.Int(4)
+		for i := 0; i < k; i++ {
+			cdp := []string{loc.URL}
+			if tp.Chance(1, 3) {
+				cdp = []string{} // the list applies to certificates without distribution points as well
+			}
+			calls = append(calls, h.StartHandshake(n, fmt.Sprintf("listed%d.%d", round, i), w.ChainFor(w.A.Issue(EEOpts{Serial: loc.Common, CDP: cdp}), w.A)))
+		}
+		var ts []*Task
+		for _, c := range calls {
+			ts = append(ts, c.Task)
+		}
+		h.Wait(ts...)
+		for i, c := range calls {
+			h.R.Checks++
+			if c.Err == nil && ownsOracle("C01.listed-accepted") {
+				h.Violation("C01.listed-accepted", "concurrent:"+backend, "round %d: handshake %d of %d concurrent handshakes for a serial that every version of the loaded list contains was ACCEPTED while a refresh cycle replaced v%d by v%d (strict=%v, backend %s)", round+1, i+1, k, round+1, round+2, strict, backend)
+				return
+			}
+		}
+		h.Settle(40 * time.Second)
+	}
+	h.R.Sample = map[string]any{"scenario": "concurrent-listed", "backend": backend, "strict": strict}
+	h.Cleanup(n)
+}
